@@ -84,3 +84,14 @@ func VerifSingleflightInFlight() int {
 	defer sfMutex.Unlock()
 	return len(sfCalls)
 }
+
+// VerifCacheEvict removes the entry stored for a template, if any (an eviction by "the environment").
+func VerifCacheEvict(template string) {
+	astCache.Delete(hashTemplate(template))
+}
+
+// VerifCacheHas reports whether an entry is stored for a template.
+func VerifCacheHas(template string) bool {
+	_, ok := astCache.Load(hashTemplate(template))
+	return ok
+}
